@@ -396,6 +396,10 @@ def judge_distribution(ctx, case, name, out, wit, mech=None, want=None):
     try:
         got, total, over = _explored(case, out, "dist")
     except ValueError as e:
+        if "Circuit has no measurements to sample" in str(e) and want:
+            ctx.check(False, "distribution-preserved", mech or "C06:distribution-changed:" + name,
+                      "the output has lost every measurement of the input program", output=repr(out)[:3000], **wit)
+            return False
         if "missing when testing classical control" not in str(e) and "Measurement key" not in str(e):
             raise
         # the output reads a measurement key before it is written: a control was moved in front of its measurement
